@@ -84,6 +84,7 @@ theorem doRegister_sum (c : Ctx) (s s' : St) (fr : Nat) (amt : Int) (flag : Nat)
   · -- first registration
     split at h; · cases h
     split at h; · cases h
+    split at h; · cases h
     injection h with h; subst h
     rw [sumBal_modAcct _ _ _ (by intro _; rfl), sumBal_transfer _ _ _ _ U hn hf hp, sumBal_modAcct _ _ _ (by intro _; rfl)]
   · split at h; · cases h
